@@ -46,6 +46,15 @@ def make_cb(g, spec, keep):
     if kind == 'id':
         return lambda n: n
     c = getattr(g, CLS[spec[1] - 1])
+    if kind == 'wrap':
+        # what an earlier callback of the chain made of the node (a scalar or a list) becomes a fresh object
+        def w(n):
+            if trees.is_obj(n):
+                return n
+            r = c()
+            keep.append(r)
+            return r
+        return w
 
     def f(n):
         if type(n) is not c:
@@ -90,7 +99,7 @@ def run(R):
     g = trees.module()
     n = 4000 if R.tier == 'quick' else 80000
     cbspecs = ['id', ['repl', 2, 3], ['repl', 1, 3], ['replmeta', 2, 3, 555], ['leaf', 2], ['leaf', 4], ['list', 1], ['list', 4],
-               ['field', 1], ['field', 4], ['child', 1], ['child', 6], ['repl', 5, 3], ['field', 7]]
+               ['field', 1], ['field', 4], ['child', 1], ['child', 6], ['repl', 5, 3], ['field', 7], ['wrap', 3], ['wrap', 3], ['leaf', 1], ['leaf', 5]]
     reqs, meta = [], []
     for i in range(n):
         t = gen_tree(rnd, g)
@@ -117,7 +126,12 @@ def run(R):
     for (t, chain, got, before, after, rp), o in zip(meta, outs):
         case = {'tree': rp, 'callbacks': chain, 'input': before[:400]}
         R.count('transform', (before, str(chain)), nontrivial='(o ' in before)
-        if got != o:
+        uses_existing = any(isinstance(c, list) and c[0] == 'child' for c in chain)
+        if got != o and before != after and uses_existing:
+            # a callback answered with a node of the INPUT that has no metadata: transform wrote metadata into that
+            # (possibly shared) input node; the model is functional and has no aliasing.  Counted, not compared.
+            pass
+        elif got != o:
             R.disagree('transform', case, got[:500], o[:500])
         else:
             R.traces += 1
@@ -142,6 +156,94 @@ def run(R):
                 R.counterexample('transform', 'identity-callback-changes-tree', case, before[:400], res_tree[:400])
         if len(R.samples) < 4 and before.count('(o ') > 2:
             R.samples.append({'tree': rp, 'callbacks': chain, 'result_and_log': got[:300]})
+    # SPEC stream on the implementation alone: a callback that returns an EQUAL BUT DISTINCT copy of every object (no
+    # metadata of its own).  Every parent is rebuilt from its transformed children before it reaches the callback, so
+    # every object of the result is one the callback returned, none is an object of the input, and each carries the
+    # position metadata of the node it stands for.
+    for i in range(600 if R.tier == 'quick' else 10000):
+        t = gen_tree(rnd, g)
+        tx, ids = export(g, t)
+        returned = {}
+
+        def copy(n2, returned=returned):
+            r = type(n2)(*[getattr(n2, f) for f in n2._fields])
+            returned[id(r)] = r
+            return r
+        R.count('fresh-copies', canon(g, t, ids), nontrivial=trees.is_obj(t))
+        try:
+            res = g.transform(t, copy)
+        except Exception as e:                  # noqa
+            R.counterexample('fresh-copies', 'exception:' + type(e).__name__, {'tree': repr(t)[:300]}, 'a tree', str(e)[:100])
+            continue
+        bad = []
+
+        def walk2(a, b, path):
+            if trees.is_obj(b):
+                if id(b) not in returned:
+                    bad.append((path, 'object of the result is not the one the callback returned' + (' (it is the input node)' if id(b) in ids else '')))
+                elif trees.is_obj(a) and b._metadata.position_info != a._metadata.position_info:
+                    bad.append((path, f'metadata {b._metadata.position_info} instead of {a._metadata.position_info}'))
+                if trees.is_obj(a) and type(a) is type(b):
+                    for f in b._fields:
+                        walk2(getattr(a, f), getattr(b, f), path + '.' + f)
+            elif isinstance(b, list) and isinstance(a, list) and len(a) == len(b):
+                for k2, (x, y) in enumerate(zip(a, b)):
+                    walk2(x, y, f'{path}[{k2}]')
+        walk2(t, res, 'root')
+        if bad or not (res == t):
+            R.counterexample('fresh-copies', 'replacement-object-not-in-result', {'tree': repr(t)[:300], 'callback': 'equal but distinct copy of every object'},
+                             'every object of the result is a copy made by the callback, with the metadata of the node it stands for', bad[:3] or 'result != input')
+        else:
+            R.traces += 1
+    # SPEC stream: a chain whose first callback turns a node into a scalar (or a list) and whose second callback turns
+    # that into a fresh parsed object without metadata: the object stands for the node and must carry its metadata
+    for i in range(400 if R.tier == 'quick' else 6000):
+        t = gen_tree(rnd, g)
+        cname = rnd.choice(['A', 'B', 'T3', 'Prefix', 'Infix'])
+        c = getattr(g, cname)
+        via_list = rnd.random() < 0.3
+        origin, made, keep2 = {}, {}, []
+
+        def f1(n2):
+            if type(n2) is not c or n2._metadata.position_info is None:
+                return n2
+            r = [trees.fresh_str('marker')] if via_list else trees.fresh_str('marker')
+            origin[id(r)] = n2._metadata.position_info
+            keep2.append(r)
+            return r
+
+        def f2(n2):
+            if id(n2) in origin:
+                r = g.E0()
+                made[id(r)] = origin[id(n2)]
+                keep2.append(r)
+                return r
+            return n2
+        R.count('metadata-through-chain', (repr(t)[:200], cname, via_list), nontrivial=True)
+        try:
+            res = g.transform(t, f1, f2, lambda n2: n2)
+        except Exception as e:                  # noqa
+            R.counterexample('metadata-through-chain', 'exception:' + type(e).__name__, {'tree': repr(t)[:300]}, 'a tree', str(e)[:100])
+            continue
+        bad = []
+        stack, seen = [res], set()
+        while stack:
+            x = stack.pop()
+            if id(x) in seen:
+                continue
+            seen.add(id(x))
+            if trees.is_obj(x):
+                if id(x) in made and x._metadata.position_info != made[id(x)]:
+                    bad.append((made[id(x)], x._metadata.position_info))
+                stack.extend(getattr(x, f) for f in x._fields)
+            elif isinstance(x, list):
+                stack.extend(x)
+        if bad:
+            R.counterexample('metadata-through-chain', 'replacement-loses-metadata-through-a-scalar', {'tree': repr(t)[:300], 'class': cname,
+                             'chain': ['node -> ' + ('list' if via_list else 'scalar'), 'that -> fresh object', 'identity']},
+                             f'position metadata {bad[0][0]} of the node the object stands for', bad[0][1])
+        else:
+            R.traces += 1
     R.assumptions += ['callbacks come from a closed family (identity; replace a class by a fresh object with/without metadata, by a scalar, '
                       'by a list of its fields, by a _replace copy, by its first field); identities of objects made by callbacks are not compared',
                       'a callback that returns a node of the input with empty metadata makes transform write that node\'s metadata: counted, '
